@@ -291,6 +291,22 @@ theorem factorization_all_prime_below_65536 (lg : Int → Int) (hlg : ∀ m : In
     exact (hiff.mp rfl).2)
   exact ⟨fs, h1, h2, h3, h4, h6⟩
 
+/-- the instance `B = 2⁶⁴` of the property's own range: from ψ₁₂ > 2⁶⁴ (the cited computation, the only hypothesis besides the
+reading of `math.log`) the list returned for every 2 ≤ n < 2⁶⁴ is THE prime factorisation — product n, strictly ascending
+bases, exponents ≥ 1, every base prime -/
+theorem factorization_all_prime_below_2_64_partial (lg : Int → Int)
+    (ψ : ∀ m : Nat, 1229 < m → m < 2 ^ 64 → (∀ a ∈ Gen.NT.smallprimes.take 12, SPRP m a) → m.Prime)
+    (hlg : ∀ n : Int, 1229 < n → n < 2 ^ 64 → lg n < 299)
+    (n : Int) (hn : 2 ≤ n) (hn' : n < 2 ^ 64) :
+    ∃ fs, factorization lg n = .ok fs ∧ (fs.map (fun f => f.1 ^ f.2.toNat)).prod = n ∧
+      (fs.map Prod.fst).Pairwise (· < ·) ∧ (∀ f ∈ fs, 1 ≤ f.2) ∧ ∀ f ∈ fs, f.1.toNat.Prime := by
+  obtain ⟨fs, h1, h2, h3, h4, _, h6⟩ := NTProofs.factorization_all_prime_bounded lg n hn (by
+    intro m hm hmn hp
+    obtain ⟨b, hb, hiff⟩ := is_prime_exact_below_2_64_partial lg ψ hlg m (by omega)
+    rw [hp] at hb; cases hb
+    exact (hiff.mp rfl).2)
+  exact ⟨fs, h1, h2, h3, h4, h6⟩
+
 example : factorization (fun _ => 0) 360 = .ok [(2, 3), (3, 2), (5, 1)] ∧
     factorization (fun _ => 0) (1231 * 1231) = .ok [(1231, 2)] ∧
     factorization (fun _ => 20) (2 * 1231 * 1237) = .ok [(2, 1), (1231, 1), (1237, 1)] ∧
